@@ -129,13 +129,16 @@ def _r131(ctx: Ctx) -> None:
 
 def _spec(form: str):
     # every value is a distinct tag; numeric so that arithmetic on them stays concrete
-    codes = [{'L_x': 3, 'L_y': 5}, {'L_x': 4, 'L_y': 6}]
-    noises = [{'r_x': 0.11}, {'r_x': 0.12}, {'r_x': 0.13}]
+    # ... except that some elements carry the SAME values in other roles (sizes that are permutations of each other,
+    # one number under two names): an element is identified by names and positions, not by its bag of values
+    codes = [{'L_x': 3, 'L_y': 5}, {'L_x': 4, 'L_y': 6}, {'L_x': 5, 'L_y': 3}]
+    noises = [{'r_x': 0.11}, {'r_x': 0.12}, {'r_x': 0.13}, {'r_y': 0.11}]
     decs = [{'osd_order': 21}, {'osd_order': 22}]
     rates = [0.0, 0.031, 0.032, 0.033, 0.034]          # the rate 0 is a legitimate (falsy) grid point
     if form == 'list-params':
-        codes = [[3, 5], [4, 6]]
-        noises = [[0.11, 0.21, 0.31], [0.12, 0.22, 0.32, 'XZZX'], [0.13, 0.23, 0.33, 'XY', {'deformation_axis': 'x'}]]
+        codes = [[3, 5], [4, 6], [5, 3]]
+        noises = [[0.11, 0.21, 0.31], [0.12, 0.22, 0.32, 'XZZX'], [0.13, 0.23, 0.33, 'XY', {'deformation_axis': 'x'}],
+                  [0.21, 0.11, 0.31]]
     rng = {'label': 'L', 'code': {'name': 'Toric2DCode', 'parameters': codes},
            'error_model': {'name': 'PauliErrorModel', 'parameters': noises},
            'decoder': {'name': 'MatchingDecoder', 'parameters': decs},
@@ -242,8 +245,9 @@ def _r132(ctx: Ctx) -> None:
                facts={'runs': len(got) if got else 0, 'sample': repr(got[0]) if got else None})
 
     # get_simulations
-    def sims_of(data):
-        it = Interp(m, _HSim())
+    def sims_of(data, it=None):
+        it = it or Interp(m, _HSim())
+        sims_of.last = it
         outs = guard('R13.2', mi, fn_get)(
             lambda: it.explore(lambda: it.call_closure(Closure(fn_get, mi), [data], {}, fn_get)))
         ctx.need(len(outs) == 1, 'R13.2', site_of(mi, fn_get), f'get_simulations: paths {outs!r}')
@@ -302,14 +306,15 @@ def _r132(ctx: Ctx) -> None:
             if ok:
                 # the specification is not consumed by its own expansion: expanding the same object again (run, then
                 # reload; count, then run) gives the same simulations
-                o2 = sims_of(data)
+                # (same interpreter: state that outlives a call - module-level containers, default arguments - is kept)
+                o2 = sims_of(data, sims_of.last)
                 ok2 = o2.kind == 'return' and isinstance(o2.value, list)
                 got2 = describe(o2.value)[0] if ok2 else None
                 ok2 = ok2 and sorted(map(repr, got2)) == sorted(map(repr, got))
                 ctx.ob('R13.2', site_of(mi, fn_get), f'get_simulations: a second expansion of the same specification object '
                                                      f'gives the same simulations ({form}, {pform})', ok2,
                        f'first expansion {len(got)} simulations, second {len(got2) if got2 is not None else o2!r}: the '
-                       f'expansion modified the specification it was given', key=f'get_simulations|again|{form}|{pform}')
+                       f'expansion modified the specification it was given or kept state from the first call', key=f'get_simulations|again|{form}|{pform}')
     # explicit runs
     runs = [{'code': {'name': ('Toric2DCode', 'Planar2DCode', 'Toric2DCode')[i], 'parameters': {'L_x': 3 + (i == 2)}},
              'error_model': {'name': 'PauliErrorModel', 'parameters': {'r_x': 0.1 + i}},
@@ -556,5 +561,10 @@ def run(ctx: Ctx) -> None:
         _r132(ctx)
     with ctx.part():
         _r132_splitting(ctx)
+    with ctx.part():
+        from .c06 import global_state_rule
+        bmod = 'panqec.simulation._batch_simulation'
+        entries = [ctx.model.func(bmod, f)[1] for f in ('get_simulations', 'expand_input_ranges', 'read_input_dict')]
+        global_state_rule(ctx, 'R13.2', entries, 'a specification is expanded')
     with ctx.part():
         _r133(ctx)
